@@ -17,6 +17,7 @@ import (
 	"github.com/mdlayher/corerad/internal/netstate"
 	"github.com/mdlayher/corerad/verifrt/ev"
 	"github.com/mdlayher/corerad/verifrt/ref"
+	"github.com/mdlayher/corerad/verifrt/vrand"
 	"github.com/mdlayher/corerad/verifrt/vsched"
 	"github.com/mdlayher/metricslite"
 	"github.com/mdlayher/ndp"
@@ -39,6 +40,10 @@ type c07Case struct {
 	UnicastOnly bool    `json:"unicast_only"`
 	RS          []c07RS `json:"solicitations"`
 	Fault       string  `json:"fault,omitempty"` // "" | unicast-write-fails | unicast-write-fails+cancel
+	// Draws: "" = every random delay draw is an explorer choice; "max" / "mid" / "cycle" =
+	// all draws at the maximum / middle / cycling through 0, middle, maximum (bursts too
+	// large to enumerate the draws of).
+	Draws string `json:"draws,omitempty"`
 }
 
 func c07Cases() []c07Case {
@@ -108,6 +113,16 @@ func c07Scenario(c c07Case) *vsched.Scenario {
 		Horizon: 5 * time.Minute,
 		Setup: func(x *vsched.Exec) {
 			res = c07Result{}
+			switch c.Draws {
+			case "max":
+				vrand.SetPolicy(func(int) int { return 2 })
+			case "mid":
+				vrand.SetPolicy(func(int) int { return 1 })
+			case "cycle":
+				vrand.SetPolicy(func(i int) int { return i })
+			default:
+				vrand.SetPolicy(nil)
+			}
 			a = newAdvWorld(cfg, true, c.Fault == "reinit")
 			arm := make(chan struct{})
 			if c.Fault == "reinit" {
@@ -379,13 +394,28 @@ func c07BurstCases() []c07Case {
 			}
 		}
 	}
+	// More solicitations at once than any queue or pool bound in the transmit path (the
+	// request channel holds 16): 17, 20, 40 and 120 sources, with all delays at the maximum,
+	// the middle, and cycling (the random delay runs from the solicitation's arrival).
+	for _, n := range []int{17, 20, 40, 120} {
+		for _, draws := range []string{"max", "mid", "cycle"} {
+			for _, gap := range []time.Duration{0, ms} {
+				c := c07Case{Name: fmt.Sprintf("burst-%d/gap=%s/draws=%s", n, gap, draws), Draws: draws}
+				for i := 0; i < n; i++ {
+					c.RS = append(c.RS, c07RS{Src: fmt.Sprintf("fe80::%x", 0x100+i), SLLA: i%2 == 0, At: 3500*ms + time.Duration(i)*gap})
+				}
+				cs = append(cs, c)
+			}
+		}
+	}
 	return cs
 }
 
 func TestVerifC07Burst(t *testing.T) {
+	defer vrand.SetPolicy(nil)
 	r := ev.Begin("C07", "burst")
 	defer r.End(t)
-	r.Rule = "bursts of 4, 5 and 8 solicitations from distinct sources (all at one instant, or 20 ms apart) x unicast_only {off,on} on the instrumented real Advertiser in the canonical goroutine schedule; for bursts of 4 and 5 every random-delay draw combination over {0, 250ms, 499.999999ms} (3^n), for 8 the default draws; oracle as in part 'sched' (each source answered exactly once by unicast within [0,500ms), counters exact)"
+	r.Rule = "bursts of 4, 5 and 8 solicitations from distinct sources (all at one instant, or 20 ms apart) x unicast_only {off,on} on the instrumented real Advertiser in the canonical goroutine schedule; for bursts of 4 and 5 every random-delay draw combination over {0, 250ms, 499.999999ms} (3^n), for 8 the default draws; bursts of 17, 20, 40 and 120 sources (at one instant / 1 ms apart) with all draws at the maximum, the middle, and cycling; oracle as in part 'sched' (each source answered exactly once by unicast within [0,500ms), counters exact)"
 	for _, c := range c07BurstCases() {
 		if len(c.RS) <= 5 {
 			exploreCases(t, r, []c07Case{c}, func(c c07Case) string { return c.Name }, c07Scenario, exploreOpts{Bound: 0, NoEnvCost: true, Budget: 60 * time.Second})
